@@ -26,3 +26,44 @@ package ioutil2
 //@ props C06
 //@ at call w.Write assert [the-same-bytes-after-the-callback] arg(p) == p0 && calls(onWrite) == 1
 //@ ensures [write-outcome-is-returned] n == result_of(w.Write, 0) && err == result_of(w.Write, 1) && calls(w.Write) == 1
+
+// ---------------------------------------------------------------- adapters
+
+//@ func NewCallbackWriter
+//@ props C06
+//@ modifies nothing
+//@ ensures result != nil
+
+//@ func (r *MultiPassReader) Unwrap
+//@ props C08
+//@ nilsafe
+//@ requires r != nil
+//@ modifies nothing
+//@ ensures result == box(r.rs)
+
+//@ func (f ReaderFunc) Read
+//@ props C08
+//@ requires f != nil
+//@ ensures calls(f) == 1 && result0 == result_of(f, 0) && result1 == result_of(f, 1)
+//@ at call f assert arg(a0) == p0
+
+//@ func (f WriterFunc) Write
+//@ props C06
+//@ requires f != nil
+//@ ensures calls(f) == 1 && result0 == result_of(f, 0) && result1 == result_of(f, 1)
+//@ at call f assert arg(a0) == p0
+
+//@ func (f CloserFunc) Close
+//@ props C06
+//@ requires f != nil
+//@ ensures calls(f) == 1 && result == result_of(f, 0)
+
+//@ func (f StringerFunc) String
+//@ props C06
+//@ requires f != nil
+//@ ensures calls(f) == 1 && result == result_of(f, 0)
+
+//@ func (NopCloser) Close
+//@ props C06 C08
+//@ modifies nothing
+//@ ensures result == nil
